@@ -14,12 +14,27 @@ TYPES = {
     "float": ("float", "1.5", "2.5", True),
     "list": ("[int...]", "[1, 2]", "[9]", True),
     "optint": ("int?", "5", "7", True),
+    # constants that can be assigned THROUGH: an object with a number field and a list field, a list of lists
+    "obj": ("Bx", "Bx()", "Bx()", True),
+    "nested": ("[[int...]...]", "[[1, 2], [3]]", "[[9]]", True),
 }
+PRELUDE = {"obj": "class Bx {\n v: int\n items: [int...]\n constructor(self) {\n  self.v = 1\n  self.items = [1, 2]\n }\n}"}
+OBSERVE = {"obj": "cst.v.to_str() + cst.items.to_str()", "nested": "cst"}
+INIT_PRINT = {"int": "5", "bool": "true", "str": "init", "float": "1.5", "list": "[1, 2]", "optint": "5", "obj": "1[1, 2]", "nested": "[[1, 2], [3]]"}
 
 WRITES = ["assign", "typed", "+=", "-=", "*=", "/=", "%=", "?=stmt", "?=if", "?=while", "modify", "modify-typed",
-          "index", "index+=", "loopcounter", "unpack"]
+          "index", "index+=", "loopcounter", "unpack",
+          # assignment THROUGH the name: field and nested paths, with and without a parenthesised inner step
+          "field", "field+=", "field-list", "(field)[i]", "(field)[i]+=", "field.m()[i]+=", "index2", "index2+=", "(index)[i]", "(index)[i]+=", "elem"]
 CONTEXTS = ["same", "block", "block2", "while", "from", "fn", "fn-in-fn", "method", "else"]
 DECLS = ["module", "function", "block"]
+
+
+PATH_FORMS = {"field": ("obj", "N.v = 9"), "field+=": ("obj", "N.v += 9"), "field-list": ("obj", "N.items = [7]"),
+              "(field)[i]": ("obj", "(N.items)[0] = 9"), "(field)[i]+=": ("obj", "(N.items)[0] += 9"),
+              "field.m()[i]+=": ("obj", "(N.items.clone())[0] += 9"),
+              "index2": ("nested", "N[0][1] = 9"), "index2+=": ("nested", "N[0][1] += 9"),
+              "(index)[i]": ("nested", "(N[0])[1] = 9"), "(index)[i]+=": ("nested", "(N[0])[1] += 9"), "elem": ("nested", "N[0] = [7]")}
 
 
 def write_stmt(w, name, ty):
@@ -54,6 +69,11 @@ def write_stmt(w, name, ty):
         return f"{name}[0] = 9" if ty == "list" else None
     if w == "index+=":
         return f"{name}[0] += 9" if ty == "list" else None
+    if w in PATH_FORMS:
+        need, text = PATH_FORMS[w]
+        return text.replace("N", name) if ty == need else None
+    if ty in ("obj", "nested") and w not in ("assign", "typed", "modify", "modify-typed", "unpack"):
+        return None
     if w == "loopcounter":
         return f"from 0 to 3, {name} {{\n}}" if ty == "int" else None
     if w == "unpack":
@@ -99,15 +119,16 @@ def program(decl, w, ctx, ty, const):
         return None   # `modify` outside a function is a different (always rejected) misuse
     kw = "const " if const else ""
     declline = f"{kw}cst: {tt} = {init}"
-    body = [give_fn(ty), declline, wrap(ctx, stmt), "print cst"]
+    body = [give_fn(ty), declline, wrap(ctx, stmt), "print " + OBSERVE.get(ty, "cst")]
     text = "\n".join(body)
+    pre = PRELUDE[ty] + "\n" if ty in PRELUDE else ""
     if decl == "module":
-        return text + "\n"
+        return pre + text + "\n"
     ind = "\n".join(" " + l for l in text.split("\n"))
     if decl == "function":
-        return "host = fn() {\n" + ind + "\n}\nhost()\n"
+        return pre + "host = fn() {\n" + ind + "\n}\nhost()\n"
     if decl == "block":
-        return "if true {\n" + ind + "\n}\n"
+        return pre + "if true {\n" + ind + "\n}\n"
     raise ValueError(decl)
 
 
@@ -195,7 +216,7 @@ class C10(Check):
     chunksize = 16
 
     def layers(self, tier):
-        tys = ["int", "str", "list"] if tier == "quick" else list(TYPES)
+        tys = ["int", "str", "list", "obj", "nested"] if tier == "quick" else list(TYPES)
         gen = [("g", d, w, c, t) for d, w, c, t in itertools.product(DECLS, WRITES, CONTEXTS, tys)]
         sp = [("s", i) for i in range(len(SPECIAL))]
         return [("L0-special-declarations", sp), ("L1-const-triples", gen)]
@@ -263,7 +284,7 @@ class C10(Check):
         res = driver.run_ms(src)
         detail = {"files": {"x.ms": src, "control.ms": ctl}, "res": res.brief(), "control": rc.brief()}
         rejected = driver.compile_rejected(res)
-        init_print = {"int": "5", "bool": "true", "str": "init", "float": "1.5", "list": "[1, 2]", "optint": "5"}[ty]
+        init_print = INIT_PRINT[ty]
         in_fn = ctx in ("fn", "fn-in-fn", "method")
         tags = [f"w-{w}", f"c-{ctx}", "control-ok" if control_ok else "control-rejected"]
         if res.cls in ("panic", "abort", "timeout"):
@@ -272,7 +293,7 @@ class C10(Check):
             bad("crash", f"{res.cls}: {res.err[-200:]}", detail)
         elif not rejected:
             unchanged = res.exit == 0 and res.lines()[-1:] == [init_print]
-            local_ok = in_fn and not w.startswith("modify")
+            local_ok = in_fn and not w.startswith("modify") and w not in PATH_FORMS and not w.startswith("index")
             if unchanged and local_ok:
                 pass        # declared a local in the nested function; the constant is intact
             elif unchanged:
